@@ -35,6 +35,9 @@ CHECKS = {
     "C10": dict(engine="S", technique="stateful property-based testing (rapid): invariant over each correct node's send log joined with its reference-validated inbox",
         level="Single-valued signatures and phase-order rules are checked on every message a correct node sends in generated adversarial executions (equivocating leaders, duplicates, replays, late commits).",
         note=SIM_NOTE),
+    "C05": dict(engine="S", technique="stateful property-based testing (rapid) in virtual time: adversarial prefix, then a harness-owned fair timely schedule; oracle = derived bound on timer firings",
+        level="Bounded liveness: 'eventually' is decided as a step bound under FIFO zero-latency suffixes on a virtual clock the harness owns (no wall clock), from generated reachable states and with Byzantine injections during the suffix. Other fair schedules are not covered; the evidence reports the worst observed firing count against the bound. One open known finding (a single member holding quorum weight alone never prepares) is excluded by construction and reported.",
+        note=SIM_NOTE + " The bound |D|*(Vmax-Vmin+2n+4) is derived in DESIGN.md (C05) and is deliberately loose."),
     "C07": dict(engine="N+S", technique="property-based testing (rapid): valid-then-mutated message candidates against an independent reference certificate predicate; same oracle as a monitor in the stateful cluster simulator",
         level="Field-by-field mutation of reference-built NEW_VIEW / PREPREPARE / VIEW_CHANGE messages delivered to a real node in generated states; every effect is judged by ref.ValidNewView. Control group (unmutated accepted) is measured. Known finding (stand-alone PREPREPARE in view>0) is listed, counted and reported as KNOWN-FINDING.",
         note=SIM_NOTE + " Engine N: the harness holds every key except the node's own."),
